@@ -500,6 +500,8 @@ TC_STATEMENTS = [
     "link_options('-Wl,--as-needed', 'native')",
     "environ['LDFLAGS'] = '-Wl,-O1'",
     "environ['C09_ACC'] = environ.get('C09_ACC', '') + '+'",
+    "install_dirs(prefix='/opt/from-tc', libdir='/opt/from-tc/lib64')",
+    "install_dirs(bindir='/opt/tc bin')",
 ]
 
 E1_VARS = {
@@ -594,7 +596,8 @@ def model_toolchain(e1, statements):
     def link_options(options, format='native', mode='dynamic'):
         environ['LDFLAGS'] = options
     ns = {'environ': environ, 'compile_options': compile_options,
-          'compiler': compiler, 'link_options': link_options}
+          'compiler': compiler, 'link_options': link_options,
+          'install_dirs': lambda **kw: None}
     for s in statements:
         exec(s, ns)
     return environ
@@ -695,8 +698,17 @@ def prop_e2e(rec):
                             '{} differs from the one written at configure '
                             'time after {}:\n{}'.format(fn, what, d), case)
 
-            for i in (1, 2):
-                r = sandbox.run_bfg(['regenerate', bldarg], cwd, env2)
+            for i in (1, 2, 3):
+                args = ['regenerate', bldarg]
+                if i == 3:
+                    # the way the build file itself regenerates: lazily,
+                    # after an input became newer
+                    args.insert(1, '--lazy')
+                    t = sandbox.Clock(tmp).tick(tmp)
+                    os.utime(os.path.join(src, 'build.bfg'), ns=(t, t))
+                    if case['tc']:
+                        os.utime(tcf, ns=(t, t))
+                r = sandbox.run_bfg(args, cwd, env2)
                 if r.rc != 0:
                     raise Violation('e2e/regenerate-failed', 'regenerate #{} '
                                     'exited {}: {}'.format(i, r.rc,
